@@ -116,6 +116,18 @@ def rule_D3(lines, log):
         lines.replace_span(a, b, "verif_text()" + "\n" * nl)
 
 
+def rule_D32(lines, log):
+    """`_ = expr;` (destructuring assignment to the wildcard: evaluate and discard) => `let _ = expr;` — same meaning;
+    the verifier does not take the assignment form"""
+    for k, (l, o) in enumerate(lines.pairs):
+        if o[0] != "src":
+            continue
+        mm = re.match(r"^(\s*)_ = ", l)
+        if mm:
+            lines.pairs[k] = (l[: mm.end(1)] + "let _ = " + l[mm.end():], o)
+            log.append({"rule": "D32", "before": l.strip()[:80], "after": "let " + l.strip()[:76]})
+
+
 _ATTR_RE = re.compile(r"#\s*!?\s*\[")
 
 
@@ -427,6 +439,8 @@ class Assembler:
             rule_D1(body_lines, log)
         if "D3" not in norules:
             rule_D3(body_lines, log)
+        if "D32" not in norules:
+            rule_D32(body_lines, log)
         ret = None
         for w, a, content in blk.sections:
             if w == "label":
